@@ -24,4 +24,23 @@ def resize {α : Type} (l : List α) (n : Nat) (x : α) : List α := l.take n ++
 /-- the iterator `a..b` -/
 def range (a b : Nat) : List Nat := List.range' a (b - a)
 
+/-- `for (k, x) in v.iter_mut().zip(y.iter()).filter(|(_, y)| pred y).map(|(x, _)| x).enumerate() { *x = f k x }`:
+the elements whose partner satisfies `pred` are updated, `k` counts the selected elements; `zip` stops at
+the shorter list, the rest of `v` is untouched -/
+def updateSelectedAux {α β : Type} (pred : β → Bool) (f : Nat → α → α) : List α → List β → Nat → List α
+  | x :: xs, y :: ys, k =>
+    if pred y then f k x :: updateSelectedAux pred f xs ys (k + 1) else x :: updateSelectedAux pred f xs ys k
+  | xs, [], _ => xs
+  | [], _, _ => []
+
+def updateSelected {α β : Type} (v : List α) (y : List β) (pred : β → Bool) (f : Nat → α → α) : List α :=
+  updateSelectedAux pred f v y 0
+
+/-- `std::f64::consts` used by the public constructors -/
+class AngleConsts (R : Type) where
+  /-- `FRAC_PI_2` -/
+  fracPi2 : R
+  /-- `PI` -/
+  pi : R
+
 end Qvnt.Rs
